@@ -198,10 +198,16 @@ def Best.compare (x y : Best) : Ordering :=
   | .eq => cmpInt y.age x.age
   | o => o
 
+/-- one step of `Iterator::max_by`: keep the current maximum only if it is strictly greater -/
+def maxStep (cmp : Best → Best → Ordering) (cur y : Best) : Best :=
+  match cmp cur y with
+  | .gt => cur
+  | _ => y
+
 /-- `Iterator::max_by`: the *last* maximal element -/
 def maxBy (cmp : Best → Best → Ordering) : List Best → Option Best
   | [] => none
-  | x :: xs => some (xs.foldl (fun cur y => match cmp cur y with | .gt => cur | _ => y) x)
+  | x :: xs => some (xs.foldl (maxStep cmp) x)
 
 def findBest (l : List Best) : Option Best := maxBy Best.compare l
 
